@@ -48,6 +48,15 @@ func (p *Parent) Count(name string, n int64) {
 	p.mu.Unlock()
 }
 
+// Max records the maximum seen for a counter.
+func (p *Parent) Max(name string, v int64) {
+	p.mu.Lock()
+	if v > p.Counters[name] {
+		p.Counters[name] = v
+	}
+	p.mu.Unlock()
+}
+
 func (p *Parent) AddDeviation(d Deviation) {
 	p.mu.Lock()
 	d.Prop = p.Prop.ID()
